@@ -31,14 +31,14 @@ vars == << wvars, l >>
 
 Ev(e) == l <= Len(Rec) /\ Rec[l].ev = e /\ l' = l + 1
 
-TReset == /\ Ev("reset") /\ Rec[l].kind = "writer"
+TReset == /\ Ev("reset") /\ Rec[l].kind \in {"writer", "fault"}
           /\ WReset(Rec[l].withShx)
 
 \* the real files hold a complete shapefile with exactly the shapes accepted so far
 CompleteFiles(e, W, t) ==
     LET r == StrictShp(e.shp)
         x == StrictShx(e.shx, e.shp)
-    IN  /\ (On("C09") \/ On("C10")) =>
+    IN  /\ (On("C09") \/ On("C10") \/ On("C12")) =>
              /\ r.ok /\ r.t = t /\ Len(r.shapes) = Len(W)
              /\ \A i \in 1..Len(W) : SameGeometry(W[i], r.shapes[i], Exact)
              /\ e.flushedShp /\ (hasShx => e.flushedShx)
@@ -75,7 +75,7 @@ TDrop ==
            /\ Drop
            /\ CompleteFiles(e, written, hType)
            \* C09 / C10: the bytes are those of "write the accepted shapes and drop"
-           /\ (On("C09") \/ On("C10")) => (e.shp = e.plainShp /\ e.shx = e.plainShx)
+           /\ (On("C09") \/ On("C10") \/ On("C12")) => (e.shp = e.plainShp /\ e.shx = e.plainShx)
 
 \* consumption by write_shapes([a, b]): two writes and a drop in one call
 TConsume ==
@@ -91,8 +91,48 @@ TConsume ==
            /\ last' = [call |-> "consume", res |-> "ok", io |-> TRUE, req |-> 0, act |-> 0]
            /\ UNCHANGED << shp, shx, hasShx, hLen, hBox, recNum, shpOps, shxOps >>
 
+(***************************************************************************)
+(* Fault runs (C12): each call event says whether the injected failure     *)
+(* fired during the call.  A call during which it fired must return that   *)
+(* very error (never success, never a panic); a call during which nothing  *)
+(* failed must succeed.  After a failed finalize the destination is healed *)
+(* and finalize is called again: the files must then be complete, and the  *)
+(* dropped writer must leave the bytes of the undisturbed run.  Which      *)
+(* operation failed does not matter for the state that is tracked, so the  *)
+(* failing actions are taken with k = 1, p = 0.                            *)
+(***************************************************************************)
+TFWrite ==
+    /\ Ev("fwrite")
+    /\ LET e == Rec[l]
+       IN  IF status = "poisoned"
+           THEN /\ WritePoisoned(e.shape)
+                /\ e.res # "panic" /\ (e.fired => e.res = "io_injected")
+           ELSE IF e.fired
+           THEN e.res = "io_injected" /\ WriteFails(e.shape, 1, 0)
+           ELSE e.res = "ok" /\ (WriteOk(e.shape) \/ WriteTorn(e.shape))
+
+TFFinalize ==
+    /\ Ev("ffinalize")
+    /\ LET e == Rec[l]
+       IN  IF e.fired
+           THEN e.res = "io_injected" /\ FinalizeFails(1, 0)
+           ELSE /\ e.res = "ok" /\ Finalize
+                /\ status' = "live" => CompleteFiles(e, written, hType)
+
+THeal == Ev("heal") /\ UNCHANGED wvars
+
+TFDrop ==
+    /\ Ev("fdrop")
+    /\ LET e == Rec[l]
+       IN  /\ e.res = "ok"                                    \* dropping never panics
+           /\ IF e.fired THEN DropFails(1, 0)
+              ELSE /\ Drop
+                   /\ status' = "dropped" =>
+                        /\ CompleteFiles(e, written, hType)
+                        /\ e.shp = e.plainShp /\ e.shx = e.plainShx
+
 Init == /\ l = 2 /\ WInit(TRUE)
-Next == TReset \/ TWrite \/ TFinalize \/ TDrop \/ TConsume
+Next == TReset \/ TWrite \/ TFinalize \/ TDrop \/ TConsume \/ TFWrite \/ TFFinalize \/ THeal \/ TFDrop
 Spec == Init /\ [][Next]_vars
 
 Accepted ==
